@@ -23,6 +23,12 @@ for pid in sorted(props):
                c.get("distinct_nontrivial", 0), ", ".join(c.get("known_findings_hit", [])) or "–", n))
 out.append("")
 out.append("### 11.4 Defects repaired in /repo (`fix:` commits, in order) and findings recorded\n")
+import subprocess as _sp
+_head = _sp.check_output(["git", "-C", "/repo", "rev-parse", "--short", "HEAD"]).decode().strip()
+_bl = os.path.join(V, "checks", "baseline_verified.txt")
+out.append("Every commit below touches only what the defect requires; with all of them applied the pinned suite, unedited and with the "
+           "`verif` guard off, still passes: " + (open(_bl).read().strip() if os.path.exists(_bl) else "see tools_baseline.py") +
+           " (current /repo HEAD: " + _head + ").\n")
 fixed, known = [], []
 for l in open(os.path.join(V, "KNOWN_FINDINGS.txt")):
     m = re.match(r"fixed: property=(\S+) (\S+) (.*)", l.strip())
@@ -45,6 +51,24 @@ for p, k, w in known:
     out.append("| %s | %s | %s |" % (p, k, w.replace("|", "/")[:420]))
 out.append("")
 out.append("### 11.5 Seeded regressions (`seeded/<name>/`) and which check catches them\n")
+# summary: how the checks did on the FIRST run against each seeded change (before any strengthening), and now
+import collections
+first, now = collections.Counter(), collections.Counter()
+for d in glob.glob(os.path.join(V, "seeded", "*")):
+    m = json.load(open(os.path.join(d, "meta.json")))
+    t = str(m.get("detection", "")).lower()
+    k = "missed" if ("missed" in t[:60]) else ("half-detected" if "half" in t[:40] else ("caught" if "caught" in t[:40] else "other"))
+    first[k] += 1
+    r = (m.get("recheck") or {}).get("result", "not re-run")
+    now["obsolete" if m.get("obsolete") else r.split(" by ")[0]] += 1
+out.append("%d confirmed seeded changes (11 per property, 11 rounds; each written by a fresh agent that saw only the property text "
+           "and the list of mechanisms already taken). **First run** against the check as it stood then: %s. Every miss or half-detection "
+           "was answered by strengthening the model, the theorems, the source ties or the generators (never by loosening), which on the way "
+           "exposed most of the genuine defects of §11.4. **Now** (re-run of every seed against /repo HEAD by `tools_seed_recheck.py`): %s. "
+           "A seed marked OBSOLETE is no longer reachable after a `fix:` commit (its own demo passes on the patched current tree). "
+           "Where a sibling property's check is the one that sees a change (`checked_by` in meta.json), the detection text says so.\n"
+           % (sum(first.values()), ", ".join("%d %s" % (v, k) for k, v in first.most_common()),
+              ", ".join("%d %s" % (v, k) for k, v in now.most_common())))
 out.append("| seeded change | property | needs to manifest | detection history | last re-check (tools_seed_recheck.py) |")
 out.append("|---|---|---|---|---|")
 for d in sorted(glob.glob(os.path.join(V, "seeded", "*"))):
